@@ -1,70 +1,18 @@
 import Fabio.Generated.C10
 import Fabio.Model.C10
-/-! Obligations over the facts regenerated from `/repo` on every run: the constants, offsets and the shape of
-the code the C10 model was written against. -/
+/-! Obligations over the facts regenerated from `/repo` on every run. Only what the proof chain needs and no
+stream can establish by running the code stays here: the data flow of `ServeTCP` (which reader is peeked, which is
+read, what is parsed, that the lookup comes last). The *shape* of the two pure functions `clientHelloBufferSize` and
+`unmarshal` (their constants and their ordered check lists) is sequential deterministic code the streams compare with
+the model on every run: those pins are change detectors and live in `Props/C10Xlate.lean` (HOWTO, "Obligations versus
+change detectors"); a behaviour-preserving rewrite of those functions makes them fire, which widens the search and
+claims nothing broken. -/
 namespace Fabio.Props.C10Facts
 open Fabio Fabio.Model
 
-/-- `len(data) < 9`, `Peek(9)` and `return handshakeLength + 9` are the model's `peekLen`. -/
+/-- `Peek(9)` is the model's `peekLen`; `readServerName(buf[5:])` skips the record header. -/
 theorem peek_pinned :
-    Generated.C10.peekMin = C10.peekLen ∧ Generated.C10.peekArg = C10.peekLen ∧
-    Generated.C10.bufsizeAdd = C10.peekLen := by decide
-
-/-- `readServerName(buf[5:])`: the record header that is skipped; 9 = 5 + 4. -/
-theorem record_header_pinned :
-    Generated.C10.recHdrSkip = C10.recHdrLen ∧
-    Generated.C10.hsHdrLen = C10.hsHdrLen ∧ C10.recHdrLen + C10.hsHdrLen = C10.peekLen := by decide
-
-/-- Record type 0x16 at offset 0, client_hello 0x01 at offset 5, record length limit 16384. -/
-theorem header_constants_pinned :
-    Generated.C10.recTypeOff = 0 ∧ Generated.C10.recTypeHandshake = C10.recTypeHandshake.toNat ∧
-    Generated.C10.hsTypeOff = 5 ∧ Generated.C10.hsTypeClientHello = C10.hsTypeClientHello.toNat ∧
-    Generated.C10.maxRecordLen = C10.maxRecordLen := by decide
-
-/-- The two big-endian length fields are read from bytes 3,4 and 6,7,8 with the shifts of `be16`/`be24`. -/
-theorem length_fields_pinned :
-    (Generated.C10.recLenHiOff, Generated.C10.recLenShift, Generated.C10.recLenLoOff) = (3, 8, 4) ∧
-    (Generated.C10.hsLenOff0, Generated.C10.hsLenShift0, Generated.C10.hsLenOff1, Generated.C10.hsLenShift1,
-      Generated.C10.hsLenOff2) = (6, 16, 7, 8, 8) := by decide
-
-/-- The fixed offsets of `unmarshal`. -/
-theorem unmarshal_offsets_pinned :
-    Generated.C10.minHelloLen = C10.minHelloLen ∧ Generated.C10.randomOff = C10.randomOff ∧
-    Generated.C10.randomEnd = C10.sidLenOff ∧ Generated.C10.sidLenOff = C10.sidLenOff ∧
-    Generated.C10.maxSidLen = C10.maxSidLen ∧ Generated.C10.sidOff = C10.sidOff ∧
-    Generated.C10.sidRebindOff = C10.sidOff ∧ Generated.C10.cipherRebindOff = 2 ∧
-    Generated.C10.compressionRebindOff = 1 := by decide
-
-/-- The store of the server name is guarded by exactly two tests: extension type `== 0` (outermost) and
-name type `== 0` (innermost, followed by `break`); no other extension is looked at. -/
-theorem sni_constants_pinned :
-    Generated.C10.extensionServerName = C10.extensionServerName ∧
-    Generated.C10.nameTypeHost = C10.nameTypeHost.toNat ∧
-    Generated.C10.nameStoreGuards = ["if _ == 0 [name]", "if _ == 0 [name] -> break"] := by decide
-
-/-- The checks of `clientHelloBufferSize` as normalised events, in order (the model has one branch per `if`). -/
-theorem bufsize_checks_pinned : Generated.C10.bufsizeEvents =
-    ["if len(_) < 9 -> return 0, …", "if _[0] != 22 -> return 0, …", "let (int(_[3])<<8)|int(_[4])",
-     "if _ == 0 || 16384 < _ -> return 0, …", "if _[5] != 1 -> return 0, …",
-     "let ((int(_[6])<<16)|(int(_[7])<<8))|int(_[8])", "if _ == 0 || _ < _+4 -> return 0, …"] := by decide
-
-/-- The checks, loops, byte reads and re-slicings of the parser `readServerName` calls (helpers inlined,
-variable names erased, conditions in normal form), in order: the model has one branch per `if`/`for`, one
-`idx` per byte read and one `sliceFrom` per `advance`. -/
-theorem unmarshal_checks_pinned : Generated.C10.unmarshalEvents =
-    ["if len(_) < 42 -> return false", "slice _[6:38]", "let int(_[38])",
-     "if 32 < _ || len(_) < _+39 -> return false", "advance _[_+39:]",
-     "if len(_) < 2 -> return false", "let (int(_[0])<<8)|int(_[1])",
-     "if _&1 != 0 || len(_) < _+2 -> return false", "advance _[_+2:]",
-     "if len(_) == 0 -> return false", "let int(_[0])", "if len(_) < _+1 -> return false", "advance _[_+1:]",
-     "if len(_) == 0 -> return true", "if len(_) < 2 -> return false", "let (int(_[0])<<8)|int(_[1])",
-     "advance _[2:]", "if _ != len(_) -> return false",
-     "for len(_) != 0", "if len(_) < 4 -> return false", "let (uint16(_[0])<<8)|uint16(_[1])",
-     "let (int(_[2])<<8)|int(_[3])", "advance _[4:]", "if len(_) < _ -> return false",
-     "if _ == 0 [name]", "if len(_) < 2 -> return false", "let (int(_[0])<<8)|int(_[1])", "advance _[2:]",
-     "if _ != len(_) -> return false", "for len(_) != 0", "if len(_) < 3 -> return false", "let _[0]",
-     "let (int(_[1])<<8)|int(_[2])", "advance _[3:]", "if len(_) < _ -> return false",
-     "if _ == 0 [name] -> break", "advance _[_:]", "advance _[_:]"] := by decide
+    Generated.C10.peekArg = C10.peekLen ∧ Generated.C10.recHdrSkip = C10.recHdrLen := by decide
 
 /-- `sni_reads_exact` at the code level, as data flow by role: ServeTCP wraps its connection in a
 `bufio.Reader`, peeks 9 bytes, sizes the buffer with `clientHelloBufferSize` of exactly those, reads exactly
